@@ -245,6 +245,8 @@ impl Val {
     }
     pub fn ctx_num(&self) -> usize {
         match self {
+            // the specification's integers are 32-bit: 2_000_000_000 stands for "as large as a count can be"
+            Val::I(n) if *n >= 2_000_000_000 => usize::MAX,
             Val::I(n) => *n as usize,
             _ => 0,
         }
@@ -260,6 +262,7 @@ pub fn map_fn(f: &str, v: Val) -> Val {
             Some('c') => 3,
             _ => 0,
         }),
+        "big" => Val::I(2_000_000_000),
         "fst" => match v {
             Val::P(a, _) => *a,
             v => Val::m(f, v),
